@@ -161,3 +161,51 @@ func macroBodyCalls(c *Ctx) {
 		}
 	}
 }
+
+// ---------------------------------------------------------------- AST shapes with nil children x register-held operands
+// The parser accepts trees with nil children: an open-ended range `n:` wherever an expression is accepted (not only inside
+// an index), empty blocks, a bare return, an if without else.  Integer parameters and loop variables live in registers and
+// the evaluator has shortcuts for them (live-register operands of infix expressions, rewritten bodies); every such shape
+// is evaluated with the variable held in a register (function parameter, loop variable, lambda parameter, nested), in a
+// plain variable, and as a non-integer parameter.
+func nilChildShapes(c *Ctx) {
+	o := evalOpts{maxDepth: 200, dur: 500 * time.Millisecond}
+	shapes := []string{
+		// open-ended `:` in every expression position
+		"[V:]", "(V:)", "x = V:", "V:", "return V:", "len(V:)", "[1,2,3][V:]", "a=[1,2,3]; a[V:]", "a=[1,2,3]; a[V:][V:]", "idf(V:)", "{1: V:}", "{V: V:}",
+		"V + (V:)", "(V:) + 1", "-(V:)", "!(V:)", "(V:)[0]", "if V: {1}", "for x = V: {x}", "for V: {}", "V:V", "[V:V][0:]", "print(V:)", "catch(V:)", "quote(V:)",
+		"first(V:)", "V == (V:)", "(V:) == (V:)", "[V:, V]", "[V, V:]", "x = [V:]; x", "y = (V:); y", "W:", "[W:]", "[V:][W:]", "V:W", "(V+1):", "[(V*2):]", "[V:]+[V:]",
+		"for k = 2 { [k:] }", "for k = 2 { [V:]; [k:] }", "func(q){[q:]}(V)", "(q => [q:])(V)", "[V:] == [V:]", "a = [V:]; a[0:]", "s=\"abc\"; s[V:]", "m={1:2}; m[V:]",
+		// empty blocks, bare return, missing else, comment-only blocks
+		"if V>0 {}", "if V>0 {} else {}", "if V>5 {1}", "if V>5 {1} else {}", "for V {}", "for j = V {}", "for j = V {j}", "return", "return; V", "func(){}()", "()=>{}",
+		"(()=>{})()", "if V==0 {return}; V", "for true {break}", "for j = V {continue}", "{}", "[]", "if V>0 { /* c */ }", "for k = V { // c\n }", "x = if V>0 {}", "x = for V {}; x",
+		"y = func(){}(); y", "[if V>5 {1}]", "{1: if V>5 {1}}", "V + (if V>5 {1})", "V + (for V {})", "V + func(){}()", "-(if V>5 {1})", "idf(if V>5 {1})", "idf(for V {})",
+		"V++", "V--", "++V", "--V", "V = V + 1; [V:]", "V := 5; [V:]", "del(V); V", "del(V); [V:]",
+	}
+	contexts := []string{
+		"func(V){ S }(1)",
+		"func tf(V){ S }; tf(2); tf(0)",
+		"func tf(V, W){ S }; tf(1, 2)",
+		"for V = 2 { S }",
+		"for V = 0:3 { S }",
+		"tl = (V) => { S }; tl(1)",
+		"func tf(W){ for V = W { S } }; tf(2)",
+		"for W = 2 { for V = 2 { S } }",
+		"func tf(V){ func(){ S }() }; tf(1)",
+		"V = 1; W = 2; S",
+		"func tf(V){ S }; tf(\"s\")",
+		"func tf(V){ S }; tf(2.5)",
+	}
+	for _, sh := range shapes {
+		for ci, cx := range contexts {
+			if !c.Thorough() && ci >= 6 && c.R.Pct(50) {
+				continue
+			}
+			src := "idf = x => x; " + strings.ReplaceAll(cx, "S", "SSHAPE")
+			src = strings.ReplaceAll(src, "SSHAPE", sh)
+			src = strings.ReplaceAll(src, "V", "n")
+			src = strings.ReplaceAll(src, "W", "w")
+			check(c, "nil-child", src, o)
+		}
+	}
+}
